@@ -90,6 +90,7 @@ fn main() {
         "C06" => check::c06::run(&ctx),
         "C11" => check::c11::run(&ctx),
         "C14" => check::c14::run(&ctx),
+        "C15" => check::c15::run(&ctx),
         "C12" => check::hon::run_c12(&ctx),
         "C20" => check::c20::run(&ctx),
         "C13" => check::hon::run_c13(&ctx),
